@@ -390,13 +390,13 @@ fn run(ctx: &mut Ctx) {
     }
     let plan = Plan {
         tokens_k: t.pick(4, 5),
-        grammar_docs: t.pick(15_000, 300_000),
+        grammar_docs: t.pick(40_000, 400_000),
         mutants_per_doc: 3,
         truncate_all: true,
         bom_share: 8,
         corpus: true,
         corpus_truncs: t.pick(8, 32),
-        random_atoms: t.pick(100_000, 2_000_000),
+        random_atoms: t.pick(300_000, 3_000_000),
         ..Plan::default()
     };
     for_each_input(ctx, &plan, &mut |ctx, input, src, r| {
